@@ -1493,81 +1493,117 @@ func ruleFuncIsolated(c *Ctx, r *R) {
 		}
 		recv := fd.Recv.List[0].Names[0].Name
 		found := false
-		ast.Inspect(fd.Body, func(n ast.Node) bool {
-			cl, ok := n.(*ast.CompositeLit)
-			if !ok || !isNamed(c.TypeOf(cl), "VM") {
-				return true
-			}
-			for _, el := range cl.Elts {
-				kv, ok := el.(*ast.KeyValueExpr)
-				if !ok || types.ExprString(kv.Key) != "stack" {
-					continue
+		judge := func(value ast.Expr, at ast.Node) {
+			found = true
+			aliases := false
+			ast.Inspect(value, func(m ast.Node) bool {
+				if sel, ok := m.(*ast.SelectorExpr); ok && sel.Sel.Name == "stack" && isIdent(sel.X, recv) {
+					aliases = true
 				}
-				found = true
-				aliases := false
-				ast.Inspect(kv.Value, func(m ast.Node) bool {
-					if sel, ok := m.(*ast.SelectorExpr); ok && sel.Sel.Name == "stack" && isIdent(sel.X, recv) {
-						aliases = true
-					}
-					if id, ok := m.(*ast.Ident); ok {
-						// a local built from the receiver's stack
-						if v, ok := c.Obj(id).(*types.Var); ok && !v.IsField() {
-							ast.Inspect(fd.Body, func(k ast.Node) bool {
-								if as, ok := k.(*ast.AssignStmt); ok {
-									for i, l := range as.Lhs {
-										if lid, ok := l.(*ast.Ident); ok && c.Obj(lid) == types.Object(v) && i < len(as.Rhs) {
-											if strings.Contains(nosp(c.Src(as.Rhs[i])), recv+".stack") {
-												aliases = true
-											}
+				if id, ok := m.(*ast.Ident); ok {
+					// a local built from the receiver's stack
+					if v, ok := c.Obj(id).(*types.Var); ok && !v.IsField() {
+						ast.Inspect(fd.Body, func(k ast.Node) bool {
+							if as, ok := k.(*ast.AssignStmt); ok {
+								for i, l := range as.Lhs {
+									if lid, ok := l.(*ast.Ident); ok && c.Obj(lid) == types.Object(v) && i < len(as.Rhs) {
+										if strings.Contains(nosp(c.Src(as.Rhs[i])), recv+".stack") {
+											aliases = true
 										}
 									}
 								}
-								return true
-							})
+							}
+							return true
+						})
+					}
+				}
+				return true
+			})
+			// the stack must be rooted in a fresh allocation, not in a slice the caller owns
+			var root func(e ast.Expr, depth int) string
+			root = func(e ast.Expr, depth int) string {
+				e = unparen(e)
+				switch x := e.(type) {
+				case *ast.CallExpr:
+					switch c.CalleeName(x) {
+					case "builtin.append":
+						if len(x.Args) > 0 {
+							return root(x.Args[0], depth+1)
+						}
+					case "builtin.make":
+						return "fresh"
+					}
+					return "call"
+				case *ast.CompositeLit:
+					return "fresh"
+				case *ast.SliceExpr:
+					return root(x.X, depth+1)
+				case *ast.Ident:
+					if x.Name == "nil" {
+						return "fresh"
+					}
+					o := c.Obj(x)
+					if isParamOrRecv(c, fd, o) {
+						return "param " + x.Name
+					}
+					if def := c.singleDef(x); def != nil && depth < 6 {
+						return root(def, depth+1)
+					}
+				}
+				return "unknown"
+			}
+			if rt := root(value, 0); strings.HasPrefix(rt, "param ") {
+				r.fail(fn+" stack owner", c.Pos(at), fn+" builds the nested VM's stack by appending to its own "+strings.TrimPrefix(rt, "param ")+" parameter: when the host's argument slice has spare capacity the callee's locals and results are written into the host's backing array (a second Call with the same slice sees the first call's result as its argument) and the returned results alias it")
+			} else {
+				r.ok(fn+" stack owner", "rooted in "+rt)
+			}
+			r.check(!aliases, fn+" stack", c.Pos(at), "the nested VM gets its own stack",
+				fn+" builds the nested VM's operand stack inside the calling VM's stack: the arguments a native callback received (which live in that spare capacity) are overwritten by a nested Call/Func")
+		}
+		ast.Inspect(fd.Body, func(n ast.Node) bool {
+			switch x := n.(type) {
+			case *ast.CompositeLit:
+				if !isNamed(c.TypeOf(x), "VM") {
+					return true
+				}
+				for _, el := range x.Elts {
+					if kv, ok := el.(*ast.KeyValueExpr); ok && types.ExprString(kv.Key) == "stack" {
+						judge(kv.Value, kv)
+					}
+				}
+			case *ast.CallExpr:
+				// a new helper that builds the nested VM around a stack it is handed
+				o := c.Callee(x)
+				h := c.DeclOf(o)
+				if o == nil || h == nil || h.Body == nil || !c.isNewHelper(o) {
+					return true
+				}
+				var params []types.Object
+				for _, f := range h.Type.Params.List {
+					for _, nm := range f.Names {
+						params = append(params, c.Info.Defs[nm])
+					}
+				}
+				ast.Inspect(h.Body, func(m ast.Node) bool {
+					cl, ok := m.(*ast.CompositeLit)
+					if !ok || !isNamed(c.TypeOf(cl), "VM") {
+						return true
+					}
+					for _, el := range cl.Elts {
+						kv, ok := el.(*ast.KeyValueExpr)
+						if !ok || types.ExprString(kv.Key) != "stack" {
+							continue
+						}
+						if id, ok := unparen(kv.Value).(*ast.Ident); ok {
+							for i, po := range params {
+								if c.Obj(id) == po && i < len(x.Args) {
+									judge(x.Args[i], x)
+								}
+							}
 						}
 					}
 					return true
 				})
-				// the stack must be rooted in a fresh allocation, not in a slice the caller owns
-				var root func(e ast.Expr, depth int) string
-				root = func(e ast.Expr, depth int) string {
-					e = unparen(e)
-					switch x := e.(type) {
-					case *ast.CallExpr:
-						switch c.CalleeName(x) {
-						case "builtin.append":
-							if len(x.Args) > 0 {
-								return root(x.Args[0], depth+1)
-							}
-						case "builtin.make":
-							return "fresh"
-						}
-						return "call"
-					case *ast.CompositeLit:
-						return "fresh"
-					case *ast.SliceExpr:
-						return root(x.X, depth+1)
-					case *ast.Ident:
-						if x.Name == "nil" {
-							return "fresh"
-						}
-						o := c.Obj(x)
-						if isParamOrRecv(c, fd, o) {
-							return "param " + x.Name
-						}
-						if def := c.singleDef(x); def != nil && depth < 6 {
-							return root(def, depth+1)
-						}
-					}
-					return "unknown"
-				}
-				if rt := root(kv.Value, 0); strings.HasPrefix(rt, "param ") {
-					r.fail(fn+" stack owner", c.Pos(kv), fn+" builds the nested VM's stack by appending to its own "+strings.TrimPrefix(rt, "param ")+" parameter: when the host's argument slice has spare capacity the callee's locals and results are written into the host's backing array (a second Call with the same slice sees the first call's result as its argument) and the returned results alias it")
-				} else {
-					r.ok(fn+" stack owner", "rooted in "+rt)
-				}
-				r.check(!aliases, fn+" stack", c.Pos(kv), "the nested VM gets its own stack",
-					fn+" builds the nested VM's operand stack inside the calling VM's stack: the arguments a native callback received (which live in that spare capacity) are overwritten by a nested Call/Func")
 			}
 			return true
 		})
